@@ -124,6 +124,7 @@ def main():
             return f"n{self.c - 1:03d}"
 
     tempfile._name_sequence = Names()
+    tempfile.tempdir = tmpdir  # skip tempfile's own writability probe (random names; not an application step)
     tok = {"c": 0}
 
     def token_hex(nbytes=None):
